@@ -341,8 +341,12 @@ def param_c_names(case):
 def atom_value(case, b, k):
     """ATOMS: concrete / table value given to input element k of buffer b (C expression)."""
     if k in case.zero_in.get(b.name, ()): return '((%s)0)' % b.ty.carrier
-    if case.mode == 'TAGS': return '((%s)(1u << (20 + %d)))' % (b.ty.carrier, b.atoms[1])
-    if case.mode == 'BASIS': return '((%s)(pos_%s == %du))' % (b.ty.carrier, b.name, k)
+    if case.mode == 'TAGS':
+        if b.atoms[0] == 'TR': return '((%s)(1u << (20 + %d)))' % (b.ty.carrier, b.atoms[2] + k // b.atoms[1])   # one operand per row of b.atoms[1] elements
+        return '((%s)(1u << (20 + %d)))' % (b.ty.carrier, b.atoms[1])
+    if case.mode == 'BASIS':
+        if b.atoms[0] == 'TR': return '((%s)(pos_%s_%d == %du))' % (b.ty.carrier, b.name, k // b.atoms[1], k % b.atoms[1])
+        return '((%s)(pos_%s == %du))' % (b.ty.carrier, b.name, k)
     if b.atoms in ('A', 'AA'): return '((%s)(ATOM_A0 + %d))' % (b.ty.carrier, b.aoff + k)   # 'AA': A-atoms that may be multiplied with each other (quadratic forms: norm)
     if b.atoms == 'B': return '((%s)(ATOM_B0 + %d))' % (b.ty.carrier, b.aoff + k)
     if b.atoms == 'LIN':
@@ -373,6 +377,8 @@ def full_tag(case, outbuf):
     t = 0
     for b in case.bufs:
         if isinstance(b.atoms, tuple) and b.atoms[0] == 'T': t |= 1 << (20 + b.atoms[1])
+        if isinstance(b.atoms, tuple) and b.atoms[0] == 'TR':
+            for r in range(b.n // b.atoms[1]): t |= 1 << (20 + b.atoms[2] + r)
     if getattr(case, 'tags_expect_wrong', False): t |= 1 << 29
     return '((%s)%dULL)' % (outbuf.ty.carrier, t)
 
@@ -448,7 +454,9 @@ def dfcc_main(case, fname='w'):
     assign_atom_offsets(case)
     if case.mode == 'BASIS':
         for b in case.bufs:
-            if b.atoms: decl.append('u32 pos_%s = nondet_u32(); __CPROVER_assume(pos_%s < %du);' % (b.name, b.name, b.n))
+            if b.atoms and b.atoms[0] == 'TR':
+                for r in range(b.n // b.atoms[1]): decl.append('u32 pos_%s_%d = nondet_u32(); __CPROVER_assume(pos_%s_%d < %du);' % (b.name, r, b.name, r, b.atoms[1]))
+            elif b.atoms: decl.append('u32 pos_%s = nondet_u32(); __CPROVER_assume(pos_%s < %du);' % (b.name, b.name, b.n))
     for b in case.bufs:
         if case.mode in ATOMS_LIKE or case.b01:
             c = b.ty.carrier
@@ -476,7 +484,9 @@ def harness_main(case, fname='w'):
         L.append('  for (int k = 0; k < VERIF_NWORDS; k++) VERIF_W[k] = nondet_u64();')
     if case.mode == 'BASIS':
         for b in case.bufs:
-            if b.atoms: L.append('  u32 pos_%s = nondet_u32(); __CPROVER_assume(pos_%s < %du);' % (b.name, b.name, b.n))
+            if b.atoms and b.atoms[0] == 'TR':
+                for r in range(b.n // b.atoms[1]): L.append('  u32 pos_%s_%d = nondet_u32(); __CPROVER_assume(pos_%s_%d < %du);' % (b.name, r, b.name, r, b.atoms[1]))
+            elif b.atoms: L.append('  u32 pos_%s = nondet_u32(); __CPROVER_assume(pos_%s < %du);' % (b.name, b.name, b.n))
     for b in case.bufs:
         c = b.ty.carrier
         L.append('  %s %s[%d]; %s %s_pre[%d];' % (c, b.name, b.n, c, b.name, b.n))
